@@ -103,6 +103,17 @@ pub fn run_c11(w: &mut W) {
                 pkts.push(seq_packet(&mut rng, &mut ex, &cfg, &w.pools));
             }
         }
+        // one sequence in a hundred carries a V5/V7 packet larger than a datagram (counts up to 65535
+        // are legal in the header and parse_bytes accepts any slice) in a position that is not last
+        let oversize = !long && rng.chance(1, 100);
+        if oversize {
+            pkts.truncate(3);
+            let ver = if rng.chance(1, 2) { 5 } else { 7 };
+            let cnt = if ver == 5 { 1365 + rng.usize(700) } else { 1260 + rng.usize(700) };
+            let at = rng.usize(pkts.len());
+            pkts.insert(at, Pkt::Fixed(fixed_pkt(&mut rng, ver, cnt)));
+            w.rep.count("sequences_with_a_packet_beyond_the_datagram_limit", 1);
+        }
         let mut wires: Vec<Vec<u8>> = pkts.iter().map(|p| p.wire()).collect();
         // a packet that decodes to an error may only be last
         if rng.chance(1, 5) {
@@ -113,7 +124,7 @@ pub fn run_c11(w: &mut W) {
             }
         }
         // keep the concatenation inside a datagram
-        while wires.iter().map(|x| x.len()).sum::<usize>() > 65535 && wires.len() > 1 {
+        while !oversize && wires.iter().map(|x| x.len()).sum::<usize>() > 65535 && wires.len() > 1 {
             wires.pop();
             pkts.pop();
         }
@@ -832,18 +843,44 @@ fn data_only_packet(rng: &mut Rng, v9: bool, ids: &[u16]) -> Vec<u8> {
     let nsets = 1 + rng.usize(3);
     let mut body = vec![];
     for _ in 0..nsets {
-        let id = if !ids.is_empty() && rng.chance(4, 5) { *rng.pick(ids) } else { 256 + rng.below(6) as u16 };
+        // one set in six uses an unused / reserved set id (IPFIX: 0, 1, 4-255; V9: 2-255): neither a
+        // template set nor a data set, so it defines nothing either - whatever its body looks like
+        let id = if rng.chance(1, 6) {
+            if v9 {
+                *rng.pick(&[2u16, 3, 4, 10, 128, 254, 255])
+            } else {
+                *rng.pick(&[0u16, 1, 4, 5, 9, 118, 200, 254, 255])
+            }
+        } else if !ids.is_empty() && rng.chance(4, 5) {
+            *rng.pick(ids)
+        } else {
+            256 + rng.below(6) as u16
+        };
         let n = match rng.below(6) {
             0 => 0,
             1 => 1 + rng.usize(3),
             2 => 64 + rng.usize(200),
             _ => rng.usize(48),
         };
-        let payload = match rng.below(4) {
+        let payload = match rng.below(5) {
             0 => vec![0u8; n],
             1 => vec![0xffu8; n],
+            2 => {
+                // shaped like a template record (id, field count, specifiers)
+                let mut p = vec![];
+                let tid = 300 + rng.below(60000) as u16;
+                let nf = 1 + rng.usize(3);
+                p.extend_from_slice(&tid.to_be_bytes());
+                p.extend_from_slice(&(nf as u16).to_be_bytes());
+                for _ in 0..nf {
+                    p.extend_from_slice(&(1 + rng.below(30) as u16).to_be_bytes());
+                    p.extend_from_slice(&(1 + rng.below(8) as u16).to_be_bytes());
+                }
+                p
+            }
             _ => rng.bytes(n),
         };
+        let n = payload.len();
         body.extend_from_slice(&id.to_be_bytes());
         body.extend_from_slice(&((4 + n) as u16).to_be_bytes());
         body.extend(payload);
